@@ -148,7 +148,7 @@ var viewCache = map[string]*Contract{}
 func clauseFor(cl *Clause, prop string) bool {
 	k := strings.Index(cl.Label, ":")
 	if k < 0 {
-		return true
+		return inScope(cl, prop)
 	}
 	head := cl.Label[:k]
 	isProps := true
@@ -158,9 +158,21 @@ func clauseFor(cl *Clause, prop string) bool {
 		}
 	}
 	if !isProps {
-		return true
+		return inScope(cl, prop)
 	}
 	for _, p := range strings.Split(head, ",") {
+		if p == prop {
+			return true
+		}
+	}
+	return false
+}
+
+func inScope(cl *Clause, prop string) bool {
+	if len(cl.Scope) == 0 {
+		return true
+	}
+	for _, p := range cl.Scope {
 		if p == prop {
 			return true
 		}
@@ -237,6 +249,16 @@ func (w *World) countedCall(fi *FuncInfo) bool {
 
 // countedExt: "count storage.Storage.SetMeta" style declarations for interface / external methods.
 func (w *World) countedExt(name string) bool {
+	for _, d := range w.Specs.Decls {
+		if d.Kind == "count" && strings.TrimSpace(d.Text) == name {
+			return true
+		}
+	}
+	return false
+}
+
+// countedName: the name appears in a count directive.
+func (w *World) countedName(name string) bool {
 	for _, d := range w.Specs.Decls {
 		if d.Kind == "count" && strings.TrimSpace(d.Text) == name {
 			return true
